@@ -834,6 +834,24 @@ class Gen:
             if isinstance(c, dict) and c.get('kind'):
                 self.walk_consumers(c, parents + [n], fname, found)
 
+    def store_gvar(self):
+        """the scalar tail of write_gvar_data: what is stored for an integer/pointer-typed object"""
+        src = strip_comments(read(self.repo, 'parse.c'))
+        m = must(r'char \*\*label = NULL;\s*uint64_t val = eval2\(init->expr, &label\);\s*if \(!label\) \{(.*?)\}\s*Relocation \*rel',
+                 src, 'scalar tail of write_gvar_data', re.S)
+        body = re.sub(r'\s+', ' ', m.group(1)).strip()
+        want = ('if (ty->kind == TY_BOOL) val = is_flonum(init->expr->ty) ? eval_double(init->expr) != 0 : val != 0; '
+                'write_buf(buf + offset, val, ty->size); return cur;')
+        if body != want:
+            raise ExtractError(f'write_gvar_data scalar store changed: {body}')
+        return ('/-- `write_gvar_data`, scalar case without relocation: `val` is `eval2(init->expr, &label)`; conversion to `_Bool`\n'
+                '    compares with zero, every other type keeps the low `ty->size` bytes (`write_buf`) -/\n'
+                'def storeGvar (fp : FpEnv) (ty : CTy) (expr : CNode) (val : BitVec 64) : Except Fail (BitVec 64) :=\n'
+                '  (if ty.kind == TypeKind.TY_BOOL then\n'
+                '     (CNode.tyOf expr) >>= fun t => if isFlonum t then (fp.neZero expr >>= fun b => pure (boolTo 64 b))\n'
+                '                                     else pure (boolTo 64 (val != (0#64)))\n'
+                '   else pure val) >>= fun v => writeBuf v ty.size\n')
+
     def write_buf(self):
         src = strip_comments(read(self.repo, 'parse.c'))
         body = re.sub(r'\s+', ' ', function_body(src, r'static\s+void\s+write_buf\s*\(\s*char\s*\*\s*buf\s*,\s*uint64_t\s+val\s*,\s*int\s+sz\s*\)\s*\{', 'write_buf')).strip()
@@ -914,6 +932,7 @@ def generate(repo):
             '  | .null => .error (.crash "NULL node dereferenced")\n'
             '  | .mk kind ty nval lhs rhs cond thn els =>\n    ' + const_body + '\n\n')
     out += g.write_buf() + '\n'
+    out += g.store_gvar() + '\n'
     out += '/-- the places where a folded constant is stored, with the conversion applied to the `int64_t` (function, destination, bits, signed) -/\n'
     out += 'def consumers : List (String × String × Nat × Bool) := [\n'
     out += ',\n'.join(f'  ({json.dumps(f)}, {json.dumps(d)}, {c[1]}, {"true" if c[2] else "false"})' for f, d, c, _ in cons) + ']\n\n'
